@@ -110,3 +110,17 @@ def counterexample(premise: F, goal: F, side: F = TRUE):
         if side.ev(env) and premise.ev(env) and not goal.ev(env):
             return env
     return None
+
+
+def implies(pf: F, goal: F) -> bool:
+    """Sound (possibly incomplete) test of pf => goal: only the conjuncts of pf that share an atom with the goal are
+    used as premise (a weaker premise implying the goal is sufficient); keeps truth tables small."""
+    parts = list(pf.args) if pf.op == "and" else [pf]
+    ga = goal.atoms()
+    rel = [p for p in parts if isinstance(p, F) and p.atoms() & ga]
+    # close under shared atoms (one step) while the table stays small
+    prem = And(*rel) if rel else TRUE
+    if len(prem.atoms() | ga) > 16:
+        # fall back to single conjuncts
+        return any(counterexample(p, goal) is None for p in rel if len(p.atoms() | ga) <= 16)
+    return counterexample(prem, goal) is None
